@@ -2,12 +2,15 @@
 package main
 
 import (
+	"fmt"
+
 	"elaverif/extract/ex"
 	"elaverif/extract/wiretok"
 )
 
 func main() {
 	ex.Header("C23", "ElaVerif.Lemmas.WireTokens")
+	wiretok.Deep = true
 	D := "dpos/state"
 	C := "cr/state"
 	ss := []wiretok.Stream{
@@ -22,6 +25,23 @@ func main() {
 		wiretok.Pair("wallet.CoinsCheckPoint", "wallet", "CoinsCheckPoint", "Serialize", "Deserialize"),
 	}
 	wiretok.Print("streams", ss)
-	wiretok.PrintMakes("makes", ss)
+
+	// field coverage: (type, all struct fields, fields mentioned by Serialize, by Deserialize)
+	type ft struct{ name, dir, recv string }
+	fmt.Println("def fieldTable : List (String × List String × List String × List String) := [")
+	fts := []ft{{"dpos.CheckPoint", D, "CheckPoint"}, {"dpos.StateKeyFrame", D, "StateKeyFrame"}, {"dpos.RewardData", D, "RewardData"},
+		{"cr.Checkpoint", C, "Checkpoint"}, {"cr.KeyFrame", C, "KeyFrame"}, {"cr.StateKeyFrame", C, "StateKeyFrame"},
+		{"cr.ProposalKeyFrame", C, "ProposalKeyFrame"}, {"cr.CRMember", C, "CRMember"}, {"cr.ProposalState", C, "ProposalState"},
+		{"cr.DepositInfo", C, "DepositInfo"}, {"dpos.Producer", D, "Producer"},
+		{"mempool.txPoolCheckpoint", "mempool", "txPoolCheckpoint"}, {"wallet.CoinsCheckPoint", "wallet", "CoinsCheckPoint"}}
+	for i, t := range fts {
+		sep := ","
+		if i == len(fts)-1 {
+			sep = ""
+		}
+		fmt.Printf("  (%s, %s, %s, %s)%s\n", ex.LeanStr(t.name), ex.StrList(wiretok.StructFields(t.dir, t.recv)),
+			ex.StrList(wiretok.FieldMentions(t.dir, t.recv, "Serialize")), ex.StrList(wiretok.FieldMentions(t.dir, t.recv, "Deserialize")), sep)
+	}
+	fmt.Println("]")
 	ex.Footer("C23")
 }
